@@ -1,10 +1,20 @@
 (* Trace checker for the C10 correspondence run: every case carries the inputs
    given to the real Go code and what it returned; the model is evaluated on
    the same inputs and must agree. *)
-From Coq Require Import List NArith Bool.
+From Coq Require Import List NArith ZArith Bool Uint63.
 From LV Require Import Wire.Model Wire.MsgModel Gen.GenWire.
 Import ListNotations.
 Local Open Scope N_scope.
+
+(* Input transport only: props/c10.py writes a byte string of n bytes as `ub n [i1; i2; ...]`,
+   seven bytes per primitive 63-bit integer (big endian, the last one zero padded); parsing
+   this is ~10x faster than a list of N literals.  ub unpacks it into the model's bytes. *)
+Definition byte_at (x sh : int) : N :=
+  Z.to_N (Uint63.to_Z (Uint63.land (Uint63.lsr x sh) 255%uint63)).
+Definition unpack7 (x : int) (acc : bytes) : bytes :=
+  byte_at x 48%uint63 :: byte_at x 40%uint63 :: byte_at x 32%uint63 :: byte_at x 24%uint63 ::
+  byte_at x 16%uint63 :: byte_at x 8%uint63 :: byte_at x 0%uint63 :: acc.
+Definition ub (n : N) (l : list int) : bytes := firstn (N.to_nat n) (fold_right unpack7 [] l).
 
 Fixpoint bytes_eqb (a b : bytes) : bool :=
   match a, b with
@@ -54,6 +64,9 @@ Inductive case :=
 | CStreamCode (ks : kinds) (p2p : bool) (b : bytes) (code : N)
 (* lnwire.ReadMessage on b: ok => (type, fields) and WriteMessage of the result *)
 | CMsg (b : bytes) (ok : bool) (t : N) (fields : list fval) (reenc : bytes)
+(* the same with the ParsePubKey oracle given as a table (see pts below): plain layouts
+   with public-key fields *)
+| CMsgP (b : bytes) (ok : bool) (t : N) (fields : list fval) (reenc : bytes) (pts : list bytes)
 (* lnwire.WriteMessage of a generated value *)
 | CWrite (t : N) (fields : list fval) (ok : bool) (out : bytes)
 (* lnwire.ReadMessage on b for a TLV-carrying message type (Gen.GenWire.gen_tlvmsgs):
@@ -101,13 +114,16 @@ Definition secp_on_curve (b : bytes) : bool :=
   end.
 
 (* generated layouts + the custom-message range (Custom.Encode/Decode use the
-   buffer directly, which the translator does not express; first custom type) *)
-Definition exec_layouts : msg_table := gen_layouts ++ [(32768, [FRest])].
+   buffer directly, which the translator does not express; the custom range 32768..65535
+   is sampled at its first two types and its last) *)
+Definition exec_layouts : msg_table :=
+  gen_layouts ++ [(32768, [FRest]); (32769, [FRest]); (65535, [FRest])].
 
 Definition table_oc (pts : list bytes) (b : bytes) : bool := existsb (bytes_eqb b) pts.
 
 (* the ExtraData field of the struct Decode fills *)
-Definition tm_extra (oc : bytes -> bool) (M : tlvmsg) (body : bytes) (v : tvalue) : bytes :=
+Definition tm_extra (oc : bytes -> bool) (M : tlvmsg) (nosplit : bool) (body : bytes) (v : tvalue)
+  : bytes :=
   match tm_mode M with
   | Repack =>
     match dec_rest oc (tm_pre M) body with
@@ -118,8 +134,23 @@ Definition tm_extra (oc : bytes -> bool) (M : tlvmsg) (body : bytes) (v : tvalue
   | Merge =>
     match v with
     | (_, _, rs) =>
-      encode_stream (filter (fun r => negb (rec_known (tm_known M) r) && (fst r <? 65536)) rs)
+      (* unknown records; those with type >= 65536 move to CustomRecords unless the message
+         keeps everything in ExtraData (ParseAndExtractExtraData) *)
+      encode_stream (filter (fun r => negb (rec_known (tm_known M) r) &&
+                                      (nosplit || (fst r <? 65536))) rs)
     end
+  end.
+
+Definition check_msg (oc : bytes -> bool) (b : bytes) (ok : bool) (t : N) (fields : list fval)
+           (reenc : bytes) : list N :=
+  match read_message oc exec_layouts b with
+  | Some (t', vs) =>
+    (if ok && (t =? t') && fvals_eqb vs fields then [] else [6]) ++
+    (match write_message exec_layouts t' vs with
+     | Some out => if bytes_eqb out reenc then [] else [7]
+     | None => [7]
+     end)
+  | None => if ok then [6] else []
   end.
 
 Definition check (c : case) : list N :=
@@ -145,16 +176,8 @@ Definition check (c : case) : list N :=
     | Ok _ => if code =? 0 then [] else [4]
     | Err e => if code =? err_code e then [] else [4]
     end
-  | CMsg b ok t fields reenc =>
-    match read_message secp_on_curve exec_layouts b with
-    | Some (t', vs) =>
-      (if ok && (t =? t') && fvals_eqb vs fields then [] else [6]) ++
-      (match write_message exec_layouts t' vs with
-       | Some out => if bytes_eqb out reenc then [] else [7]
-       | None => [7]
-       end)
-    | None => if ok then [6] else []
-    end
+  | CMsg b ok t fields reenc => check_msg secp_on_curve b ok t fields reenc
+  | CMsgP b ok t fields reenc pts => check_msg (table_oc pts) b ok t fields reenc
   | CWrite t fields ok out =>
     match write_message exec_layouts t fields with
     | Some o => if ok && bytes_eqb o out then [] else [8]
@@ -165,7 +188,8 @@ Definition check (c : case) : list N :=
     | Some (t', (vs, cs, rs)) =>
       (if ok && (t =? t') && fvals_eqb (vs ++ cs) fields then [] else [9]) ++
       (match lookup_tm gen_tlvmsgs t' with
-       | Some M => if bytes_eqb (tm_extra (table_oc pts) M (skipn 2 b) (vs, cs, rs)) extra then [] else [10]
+       | Some M => if bytes_eqb (tm_extra (table_oc pts) M (memN t' gen_nosplit) (skipn 2 b)
+                                          (vs, cs, rs)) extra then [] else [10]
        | None => [10]
        end) ++
       (match write_tmessage gen_tlvmsgs t' (vs, cs, rs) with
@@ -184,7 +208,7 @@ Definition check (c : case) : list N :=
        | Some W, Some tv =>
          match dec_rest (table_oc pts) (om_pre W) (skipn 2 b) with
          | Some (_, r) =>
-           if bytes_eqb (tm_extra (table_oc pts) (om_tail W) r tv) extra then [] else [10]
+           if bytes_eqb (tm_extra (table_oc pts) (om_tail W) false r tv) extra then [] else [10]
          | None => [10]
          end
        | Some _, None => if bytes_eqb [] extra then [] else [10]
